@@ -9,6 +9,12 @@ import IRModel.Props.EngineThm
 protocol: `IRGen/Irp.lean`), the first frame `_build_packet` emits equals the specified signal duration for
 duration for **every** value of every bit field.  `C02_frequency` is the carrier clause.
 
+The repeat ("ditto") frame: for the protocols whose string ends in a plain ditto sub-stream `,(d,…,gap|^E)*`
+the generated obligation `irp_ditto_P` is itself the statement (there is no quantifier: the frame is a
+constant) — the frame `_build_repeat_packet` builds from the class tables (`Encode.buildRepeatFrame`) is the
+specified one, duration for duration within 1 µs, total time equal to the extent; `irp_ditto_print_P` ties the
+parsed ditto to the source string.
+
 Not covered by the theorem, decided by the search against `tools/irp.py` only (C02_partial): which expression
 the encoder puts into each field (complements, checksums), the repeat frames and `repeat_count`, protocols
 with 4/16-symbol or biphase bit specs, toggles, variations and nested bit specs.
